@@ -75,6 +75,7 @@ class ClassInfo:
     module: "ModuleInfo"
     methods: Dict[str, FunctionInfo] = field(default_factory=dict)
     bases: Tuple[str, ...] = ()
+    base_nodes: List[ast.ClassDef] = field(default_factory=list)  # class statements of the repository bases (mixins)
 
     def init_attrs(self) -> Dict[str, ast.expr]:
         """self.X = <expr> assignments directly in __init__ (first assignment wins)."""
@@ -99,17 +100,20 @@ class ClassInfo:
     def all_self_attrs(self) -> set:
         """Every attribute name assigned through self.X anywhere in the class, plus methods / class vars."""
         names = set(self.methods)
-        for st in self.node.body:
-            if isinstance(st, ast.Assign):
-                for t in st.targets:
-                    if isinstance(t, ast.Name):
-                        names.add(t.id)
-            elif isinstance(st, ast.AnnAssign) and isinstance(st.target, ast.Name):
-                names.add(st.target.id)
-        for n in ast.walk(self.node):
-            if isinstance(n, ast.Attribute) and isinstance(n.ctx, ast.Store):
-                if isinstance(n.value, ast.Name) and n.value.id == "self":
-                    names.add(n.attr)
+        for cnode in [self.node] + list(self.base_nodes):
+            for st in cnode.body:
+                if isinstance(st, ast.Assign):
+                    for t in st.targets:
+                        if isinstance(t, ast.Name):
+                            names.add(t.id)
+                elif isinstance(st, ast.AnnAssign) and isinstance(st.target, ast.Name):
+                    names.add(st.target.id)
+                elif isinstance(st, (ast.FunctionDef, ast.AsyncFunctionDef, ast.ClassDef)):
+                    names.add(st.name)
+            for n in ast.walk(cnode):
+                if isinstance(n, ast.Attribute) and isinstance(n.ctx, ast.Store):
+                    if isinstance(n.value, ast.Name) and n.value.id == "self":
+                        names.add(n.attr)
         return names
 
 
@@ -213,6 +217,7 @@ class Program:
 
         for c in list(self.classes.values()):
             for b in bases_of(c, {c.qualname}):
+                c.base_nodes.append(b.node)
                 for name, fi in list(b.methods.items()):
                     if name in c.methods or fi.cls is not b:
                         continue
